@@ -25,7 +25,7 @@ DELIVERABLES (write them into {wt}/seeds/ , create that directory):
   seeds/A.md, seeds/B.md           — 5-10 lines each: what was changed, why it breaks the property, what is needed for it to manifest, and the exact commands you ran with their results (test-suite tail with and without the change, demo output with and without the change).
 When you are finished, restore the worktree's tracked files (`git -C {wt} checkout -- .`) so that only the untracked seeds/ directory remains. Verify each diff applies cleanly on the restored tree with `git -C {wt} apply --check seeds/A.diff`.
 
-In your final message, summarise the two changes in a few lines each. Do not commit anything.
+In your final message, summarise the two changes in a few lines each. Do not commit anything. Never use `git stash` (the stash is shared between worktrees); to switch between patched and unpatched use `git diff > file`, `git checkout -- .` and `git apply file`.
 '''
 os.makedirs('/tmp/seedprompts', exist_ok=True)
 for pid in sys.argv[1:]:
